@@ -1,5 +1,6 @@
 import CCVerif.Lemmas.EvalGround
 import CCVerif.Lemmas.EvalExamples
+import CCVerif.Lemmas.EvalExamples6
 /-!
 # C02 — type soundness of checker + evaluator
 
@@ -298,7 +299,7 @@ def Typed2 (env : Env) (e : Ast) (τ : ExprTy) : Prop := ∃ G, GlobalsOK env G 
 def Typed3 (env : Env) (e : Ast) (τ : ExprTy) : Prop := ∃ G, GlobalsOK env G ∧ Frag env G 3 [] e τ
 
 theorem typed1_sub_typed2 {env : Env} {e : Ast} {τ : ExprTy} (h : Typed1 env e τ) : Typed2 env e τ :=
-  ⟨[], (by intro g σ hg; simp [lookup] at hg), Frag.mono (by decide) h⟩
+  ⟨[], (by intro g σ hg; simp [lookup] at hg), FragR.mono (by decide) h⟩
 theorem typed2_sub_typed3 {env : Env} {e : Ast} {τ : ExprTy} (h : Typed2 env e τ) : Typed3 env e τ :=
   let ⟨G, hG, hf⟩ := h; ⟨G, hG, hf.mono (by decide)⟩
 
@@ -311,7 +312,7 @@ Missing from the full statement: tuple patterns, enumerated declarations, calls,
 filters, `Z`; `ℬ` of operands beyond the reference bound (shared fragment with C01). -/
 theorem progress_preservation_partial3 : progress_preservation_statement Typed3 := by
   intro env e τ ⟨G, hG, hf⟩ fuel
-  rcases evaluate_frag hG hf fuel with hg | ho | ⟨eid, pos, he, hd⟩
+  rcases evaluate_frag hG hf (by decide) fuel with hg | ho | ⟨eid, pos, he, hd⟩
   · cases τ with
     | ty ty =>
       obtain ⟨v, hr, hw, _, _⟩ := hg
@@ -335,7 +336,7 @@ which `Compare` is a total order and the set operations mean what they should -/
 theorem values_canonical_partial3 (env : Env) (e : Ast) (τ : ExprTy) (h : Typed3 env e τ) (fuel : Nat) (v : Val)
     (hv : (evaluate fuel env e).1 = .ok v) : canon v = true ∧ ∃ ty, τ = .ty ty ∧ noAny ty = true := by
   obtain ⟨G, hG, hf⟩ := h
-  rcases evaluate_frag hG hf fuel with hg | ho | ⟨eid, pos, he, _⟩
+  rcases evaluate_frag hG hf (by decide) fuel with hg | ho | ⟨eid, pos, he, _⟩
   · cases τ with
     | ty ty =>
       obtain ⟨v', hr, hw, hn, _⟩ := hg
@@ -352,7 +353,127 @@ theorem never_stuck_partial3 (env : Env) (e : Ast) (τ : ExprTy) (h : Typed3 env
     (∃ v, (evaluate fuel env e).1 = .ok v) ∨ (∃ b, (evaluate fuel env e).1 = .okBool b) ∨
     (evaluate fuel env e).1 = .outOfFuel ∨ (∃ eid pos, (evaluate fuel env e).1 = .err eid pos ∧ Documented eid) := by
   obtain ⟨G, hG, hf⟩ := h
-  rcases evaluate_frag hG hf fuel with hg | ho | ⟨eid, pos, he, hd⟩
+  rcases evaluate_frag hG hf (by decide) fuel with hg | ho | ⟨eid, pos, he, hd⟩
+  · cases τ with
+    | ty ty => obtain ⟨v, hr, _⟩ := hg; exact Or.inl ⟨v, hr⟩
+    | logic => obtain ⟨b, hr, _⟩ := hg; exact Or.inr (Or.inl ⟨b, hr⟩)
+  · exact Or.inr (Or.inr (Or.inl ho))
+  · exact Or.inr (Or.inr (Or.inr ⟨eid, pos, he, hd⟩))
+
+/-! ## stage 4: `R{…}` and `I{…}` over plain variables (shared fragment with C01) -/
+
+def Typed4 (env : Env) (e : Ast) (τ : ExprTy) : Prop := ∃ G, GlobalsOK env G ∧ Frag env G 4 [] e τ
+
+theorem typed3_sub_typed4 {env : Env} {e : Ast} {τ : ExprTy} (h : Typed3 env e τ) : Typed4 env e τ :=
+  let ⟨G, hG, hf⟩ := h; ⟨G, hG, hf.mono (by decide)⟩
+
+private theorem sound_of_frag {env : Env} {G : TCtx} {lvl : Nat} (hG : GlobalsOK env G) {e n : Ast} {τ : ExprTy}
+    (hf : FragR env G lvl [] [] e n τ) (hl5 : lvl ≤ 5) (fuel : Nat) : Sound (evaluate fuel env e).1 τ := by
+  rcases evaluate_frag hG hf hl5 fuel with hg | ho | ⟨eid, pos, he, hd⟩
+  · cases τ with
+    | ty ty =>
+      obtain ⟨v, hr, hw, _, _⟩ := hg
+      rw [hr]
+      exact ⟨ty, rfl, (hasTy_iff v ty).mp hw.1⟩
+    | logic =>
+      obtain ⟨b, hr, _⟩ := hg
+      rw [hr]; rfl
+  · rw [ho]; trivial
+  · rw [he]; exact hd
+
+/-- **progress_preservation_partial4**: stage 3 extended with the recursive constructor (short and full
+form) and the imperative constructor (iterate / assign / condition blocks) over plain variables: never
+`stuck` (in particular the slot guards, the block metadata, the block stack and the `std::get`s of the two
+loops never fault), a value has the type of the expression, errors are documented ones (`iterationsLimit`
+when the shared iteration counter is exhausted). -/
+theorem progress_preservation_partial4 : progress_preservation_statement Typed4 := by
+  intro env e τ ⟨G, hG, hf⟩ fuel
+  exact sound_of_frag hG hf (by decide) fuel
+
+/-- **values_canonical_partial4**: returned values are canonical and of an `R0`-free type -/
+theorem values_canonical_partial4 (env : Env) (e : Ast) (τ : ExprTy) (h : Typed4 env e τ) (fuel : Nat) (v : Val)
+    (hv : (evaluate fuel env e).1 = .ok v) : canon v = true ∧ ∃ ty, τ = .ty ty ∧ noAny ty = true := by
+  obtain ⟨G, hG, hf⟩ := h
+  rcases evaluate_frag hG hf (by decide) fuel with hg | ho | ⟨eid, pos, he, _⟩
+  · cases τ with
+    | ty ty =>
+      obtain ⟨v', hr, hw, hn, _⟩ := hg
+      rw [hr] at hv; injection hv with hv; subst hv
+      exact ⟨hw.2, ty, rfl, hn⟩
+    | logic =>
+      obtain ⟨b, hr, _⟩ := hg
+      rw [hr] at hv; cases hv
+  · rw [ho] at hv; cases hv
+  · rw [he] at hv; cases hv
+
+/-- **never_stuck_partial4**: the possible outcomes on the stage-4 fragment -/
+theorem never_stuck_partial4 (env : Env) (e : Ast) (τ : ExprTy) (h : Typed4 env e τ) (fuel : Nat) :
+    (∃ v, (evaluate fuel env e).1 = .ok v) ∨ (∃ b, (evaluate fuel env e).1 = .okBool b) ∨
+    (evaluate fuel env e).1 = .outOfFuel ∨ (∃ eid pos, (evaluate fuel env e).1 = .err eid pos ∧ Documented eid) := by
+  obtain ⟨G, hG, hf⟩ := h
+  rcases evaluate_frag hG hf (by decide) fuel with hg | ho | ⟨eid, pos, he, hd⟩
+  · cases τ with
+    | ty ty => obtain ⟨v, hr, _⟩ := hg; exact Or.inl ⟨v, hr⟩
+    | logic => obtain ⟨b, hr, _⟩ := hg; exact Or.inr (Or.inl ⟨b, hr⟩)
+  · exact Or.inr (Or.inr (Or.inl ho))
+  · exact Or.inr (Or.inr (Or.inr ⟨eid, pos, he, hd⟩))
+
+/-! ## stage 5: enumerated declarations (the evaluator runs on the normal form: nested quantifiers) -/
+
+def Typed5 (env : Env) (e : Ast) (τ : ExprTy) : Prop := ∃ G n, GlobalsOK env G ∧ FragR env G 5 [] [] e n τ
+
+theorem typed4_sub_typed5 {env : Env} {e : Ast} {τ : ExprTy} (h : Typed4 env e τ) : Typed5 env e τ :=
+  let ⟨G, hG, hf⟩ := h; ⟨G, e, hG, FragR.mono (by decide) hf⟩
+
+/-- **progress_preservation_partial5**: stage 4 extended with quantifiers over an enumerated declaration
+`Q x₁,…,xₙ ∈ S . P`: evaluating the normalised tree never faults, values have the type of the expression,
+errors are documented ones. -/
+theorem progress_preservation_partial5 : progress_preservation_statement Typed5 := by
+  intro env e τ ⟨G, n, hG, hf⟩ fuel
+  exact sound_of_frag hG hf (by decide) fuel
+
+/-- **never_stuck_partial5**: the possible outcomes on the stage-5 fragment -/
+theorem never_stuck_partial5 (env : Env) (e : Ast) (τ : ExprTy) (h : Typed5 env e τ) (fuel : Nat) :
+    (∃ v, (evaluate fuel env e).1 = .ok v) ∨ (∃ b, (evaluate fuel env e).1 = .okBool b) ∨
+    (evaluate fuel env e).1 = .outOfFuel ∨ (∃ eid pos, (evaluate fuel env e).1 = .err eid pos ∧ Documented eid) := by
+  obtain ⟨G, n, hG, hf⟩ := h
+  rcases evaluate_frag hG hf (by decide) fuel with hg | ho | ⟨eid, pos, he, hd⟩
+  · cases τ with
+    | ty ty => obtain ⟨v, hr, _⟩ := hg; exact Or.inl ⟨v, hr⟩
+    | logic => obtain ⟨b, hr, _⟩ := hg; exact Or.inr (Or.inl ⟨b, hr⟩)
+  · exact Or.inr (Or.inr (Or.inl ho))
+  · exact Or.inr (Or.inr (Or.inr ⟨eid, pos, he, hd⟩))
+
+/-! ## stage 6: flat tuple patterns in `∀ ∃ D{}` (one generated variable per pattern, components by projection) -/
+
+def Typed6 (env : Env) (e : Ast) (τ : ExprTy) : Prop :=
+  ∃ G n, GlobalsOK env G ∧ FragR env G 6 [] [] e n τ ∧ NoCollide (patsOf e)
+
+/-- **progress_preservation_partial6**: stage 5 extended with flat tuple patterns in quantifiers and declarative
+set-builders (candidate names of the patterns not colliding): evaluating the normalised tree - where every use of
+a pattern component is a projection `pr_i` of the generated variable - never faults (in particular no
+`T().Component` of a non-tuple or of a missing index), values have the type of the expression, errors are
+documented ones. -/
+theorem progress_preservation_partial6 : progress_preservation_statement Typed6 := by
+  intro env e τ ⟨G, n, hG, hf, hP⟩ fuel
+  rcases evaluate_frag_of_norm hG hf fuel (hf.normalizesTree6 hP fuel) with hg | ho | ⟨eid, pos, he, hd⟩
+  · cases τ with
+    | ty ty =>
+      obtain ⟨v, hr, hw, _, _⟩ := hg
+      rw [hr]
+      exact ⟨ty, rfl, (hasTy_iff v ty).mp hw.1⟩
+    | logic =>
+      obtain ⟨b, hr, _⟩ := hg
+      rw [hr]; rfl
+  · rw [ho]; trivial
+  · rw [he]; exact hd
+
+/-- **never_stuck_partial6**: the possible outcomes on the stage-6 fragment -/
+theorem never_stuck_partial6 (env : Env) (e : Ast) (τ : ExprTy) (h : Typed6 env e τ) (fuel : Nat) :
+    (∃ v, (evaluate fuel env e).1 = .ok v) ∨ (∃ b, (evaluate fuel env e).1 = .okBool b) ∨
+    (evaluate fuel env e).1 = .outOfFuel ∨ (∃ eid pos, (evaluate fuel env e).1 = .err eid pos ∧ Documented eid) := by
+  obtain ⟨G, n, hG, hf, hP⟩ := h
+  rcases evaluate_frag_of_norm hG hf fuel (hf.normalizesTree6 hP fuel) with hg | ho | ⟨eid, pos, he, hd⟩
   · cases τ with
     | ty ty => obtain ⟨v, hr, _⟩ := hg; exact Or.inl ⟨v, hr⟩
     | logic => obtain ⟨b, hr, _⟩ := hg; exact Or.inr (Or.inl ⟨b, hr⟩)
@@ -366,6 +487,22 @@ example : Typed2 Examples.envS Examples.e2 .logic := ⟨_, Examples.globalsOK_S,
 example : Typed3 Examples.envS Examples.e3 .logic := ⟨_, Examples.globalsOK_S, Examples.e3_frag⟩
 example : Typed3 Examples.envS Examples.e4 (.ty (.coll Examples.X)) := ⟨_, Examples.globalsOK_S, Examples.e4_frag⟩
 example : (evaluate 20 Examples.envS Examples.e4).1 = .ok (.s [.e 1, .e 2]) := by decide
+/-! stage 4: `I{(x,y) | x:∈{1,2,3}; y:=x*x; y>1}` has type `ℬ(Z×Z)` and evaluates to `{(2,4),(3,9)}`;
+`R{s:={1} | card(s)<3 | s ∪ D{y∈{1,2,3,4} | ∃x∈s y=x+1}}` has type `ℬ(Z)` and evaluates to `{1,2,3}` -/
+example : Typed4 Examples.env0 Examples.impEx (.ty (.coll (.tuple [Examples.Z, Examples.Z]))) :=
+  ⟨[], (by intro g σ hg; simp [lookup] at hg), Examples.impEx_frag⟩
+example : (evaluate 20 Examples.env0 Examples.impEx).1 = .ok (.s [.t [.e 2, .e 4], .t [.e 3, .e 9]]) := by decide
+example : Typed4 Examples.env0 Examples.recFullEx (.ty (.coll Examples.Z)) :=
+  ⟨[], (by intro g σ hg; simp [lookup] at hg), Examples.recFullEx_frag⟩
+example : (evaluate 20 Examples.env0 Examples.recFullEx).1 = .ok (.s [.e 1, .e 2, .e 3]) := by decide
+/-! stage 5: `∃a,b∈D{a∈{1,2} | 1=1} (a=1 & b=b) & ∀x,y,z∈{1,2,3} (x<y & y<z ⇒ x<z)` is LOGIC and evaluates to `true` -/
+example : Typed5 Examples.env0 Examples.e6 .logic :=
+  ⟨[], _, (by intro g σ hg; simp [lookup] at hg), Examples.e6_frag⟩
+example : (evaluate 30 Examples.env0 Examples.e6).1 = .okBool true := by decide
+/-! stage 6: `D{(a,b)∈{(1,2),(2,3)} | ∃(c,d)∈{(1,2),(2,3)} b=c} = {(1,2)} & ∀(x,y)∈{(1,2),(2,3)} x<y` is LOGIC, `true` -/
+example : Typed6 Examples.env0 Examples.e7 .logic :=
+  ⟨[], _, (by intro g σ hg; simp [lookup] at hg), Examples.e7_frag, Examples.e7_nocollide⟩
+example : (evaluate 30 Examples.env0 Examples.e7).1 = .okBool true := by decide
 
 /-! ## former counterexamples, after the `fix:` commits -/
 
